@@ -131,6 +131,59 @@ func TestExhaustive(t *testing.T) {
 	R.Exhaustive(fmt.Sprintf("sequential: every sequence over {Add, Snapshot} of length 1..%d for each capacity 1..8 (8 x (2^%d - 2) sequences)", maxLen, maxLen+1))
 }
 
+var _ = stats.Register(R, "wrap", checkWrap)
+
+// WrapCase: a very long sequential run; the snapshot is checked after every
+// addition close to a power of two (where an index would wrap) and sparsely elsewhere.
+type WrapCase struct {
+	Cap  int `json:"capacity"`
+	Adds int `json:"adds"`
+}
+
+func checkWrap(c WrapCase, o *stats.Obs) error {
+	q := cq.NewCircularQueue(c.Cap)
+	for n := 1; n <= c.Adds; n++ {
+		q.Add(msg(n))
+		near := n%997 == 0 || n == c.Adds
+		for k := uint(4); k <= 30 && !near; k++ {
+			d := n - 1<<k
+			near = d >= -3 && d <= 3
+		}
+		if !near {
+			continue
+		}
+		var want []int
+		for i := n - c.Cap + 1; i <= n; i++ {
+			if i >= 1 {
+				want = append(want, i)
+			}
+		}
+		if got := ids(q.GetMessages()); fmt.Sprint(got) != fmt.Sprint(want) {
+			o.Key = "wrong-snapshot-long-run"
+			return fmt.Errorf("capacity %d: after %d additions the snapshot is %v, want %v", c.Cap, n, got, want)
+		}
+		if len(q.Items) > c.Cap {
+			o.Key = "over-capacity"
+			return fmt.Errorf("capacity %d: queue holds %d items after %d additions", c.Cap, len(q.Items), n)
+		}
+	}
+	o.NonTrivial = c.Adds > c.Cap
+	o.Hash = stats.HashInts(int64(c.Cap), int64(c.Adds))
+	o.Class("very-long-run")
+	return nil
+}
+
+// TestWrap: runs past 2^16 (quick) / 2^20 (thorough) additions for several capacities.
+func TestWrap(t *testing.T) {
+	adds := 1<<16 + 40
+	if os.Getenv("VERIF_TIER") == "thorough" {
+		adds = 1<<20 + 40
+	}
+	for _, capn := range []int{1, 2, 3, 8, 20} {
+		stats.Do(R, t, "wrap", WrapCase{Cap: capn, Adds: adds}, checkWrap)
+	}
+}
+
 func genLong(t *rapid.T) SeqCase {
 	c := SeqCase{Cap: rapid.SampledFrom([]int{1, 2, 3, 4, 5, 6, 7, 8, 20}).Draw(t, "capacity")}
 	n := rapid.IntRange(1, 40).Draw(t, "nOps")
